@@ -82,6 +82,112 @@ class Keywords(ast.NodeTransformer):
         return node
 
 
+def _has_call(e):
+    return any(isinstance(n, ast.Call) for n in ast.walk(e))
+
+
+class MulSwap(ast.NodeTransformer):
+    """`a * b` -> `b * a` (elementwise / scalar product commutes; not `@`), unless both operands contain a call (evaluation order of
+    effects such as random draws is kept)"""
+
+    def visit_BinOp(self, node):
+        self.generic_visit(node)
+        if isinstance(node.op, ast.Mult) and not (_has_call(node.left) and _has_call(node.right)) \
+                and not any(isinstance(x, (ast.List, ast.Tuple, ast.JoinedStr)) or (isinstance(x, ast.Constant) and isinstance(x.value, str))
+                            for x in (node.left, node.right)):
+            return ast.copy_location(ast.BinOp(left=node.right, op=ast.Mult(), right=node.left), node)
+        return node
+
+
+class _Blocks(ast.NodeTransformer):
+    """base: rewrite statement lists of function bodies (not class / module level)"""
+
+    def rewrite(self, stmts, fn):
+        raise NotImplementedError
+
+    def visit_FunctionDef(self, node):
+        self.generic_visit(node)
+        node.body = self._block(node.body, node)
+        return node
+
+    visit_AsyncFunctionDef = visit_FunctionDef
+
+    def _block(self, stmts, fn):
+        for s in stmts:
+            if isinstance(s, (ast.FunctionDef, ast.AsyncFunctionDef, ast.ClassDef)):
+                continue
+            for f in ("body", "orelse", "finalbody"):
+                sub = getattr(s, f, None)
+                if isinstance(sub, list) and sub and isinstance(sub[0], ast.stmt):
+                    setattr(s, f, self._block(sub, fn))
+            if isinstance(s, ast.Try):
+                for h in s.handlers:
+                    h.body = self._block(h.body, fn)
+        return self.rewrite(stmts, fn)
+
+
+class ArgTemp(_Blocks):
+    """`t = f(g(x), y)` / `f(g(x), y)` / `return f(g(x), y)` -> `arg__N = g(x); ... f(arg__N, y)`: the first positional argument, when it
+    is a call or an operator expression and the callee expression itself contains no call, is evaluated into a temporary first"""
+
+    def __init__(self):
+        self.n = 0
+
+    def rewrite(self, stmts, fn):
+        if any(isinstance(n, (ast.Yield, ast.YieldFrom)) for n in ast.walk(fn)):
+            return stmts
+        out = []
+        for s in stmts:
+            v = s.value if isinstance(s, (ast.Assign, ast.Expr, ast.Return)) else None
+            if isinstance(v, ast.Call) and v.args and isinstance(v.args[0], (ast.Call, ast.BinOp)) and not _has_call(v.func) \
+                    and not any(isinstance(n, (ast.NamedExpr, ast.Lambda, ast.Await, ast.Starred)) for n in ast.walk(v)):
+                self.n += 1
+                nm = f"arg__{self.n}"
+                out.append(ast.copy_location(ast.Assign(targets=[ast.Name(nm, ast.Store())], value=v.args[0]), s))
+                v.args[0] = ast.copy_location(ast.Name(nm, ast.Load()), v.args[0])
+            out.append(s)
+        return out
+
+
+class UnElse(_Blocks):
+    """`if c: ...return/raise  else: B`  ->  `if c: ...return/raise`  followed by B"""
+
+    def rewrite(self, stmts, fn):
+        out = []
+        for s in stmts:
+            if isinstance(s, ast.If) and s.orelse and s.body and isinstance(s.body[-1], (ast.Return, ast.Raise)) \
+                    and not (len(s.orelse) == 1 and isinstance(s.orelse[0], ast.If)):
+                tail = s.orelse
+                s.orelse = []
+                out.append(s)
+                out.extend(tail)
+            else:
+                out.append(s)
+        return out
+
+
+class Unpack(_Blocks):
+    """`a, b = x, y` -> `a = x; b = y` when y does not read a (plain names on the left)"""
+
+    def rewrite(self, stmts, fn):
+        out = []
+        for s in stmts:
+            if isinstance(s, ast.Assign) and len(s.targets) == 1 and isinstance(s.targets[0], ast.Tuple) and isinstance(s.value, ast.Tuple) \
+                    and len(s.targets[0].elts) == len(s.value.elts) and all(isinstance(t, ast.Name) for t in s.targets[0].elts):
+                names = [t.id for t in s.targets[0].elts]
+                ok = True
+                for i, v in enumerate(s.value.elts):
+                    used = {n.id for n in ast.walk(v) if isinstance(n, ast.Name)}
+                    if used & set(names[:i]):
+                        ok = False
+                if ok:
+                    for t, v in zip(s.targets[0].elts, s.value.elts):
+                        out.append(ast.copy_location(ast.Assign(targets=[t], value=v), s))
+                    continue
+            out.append(s)
+        return out
+
+
 def shuffle(tree):
     body, out, run = tree.body, [], []
     for s in body + [None]:
@@ -110,7 +216,9 @@ def main():
             src = open(p).read()
             tree = ast.parse(src)
             tree = {"nest": lambda t: Nest().visit(t), "retvar": lambda t: RetVar().visit(t), "shuffle": shuffle,
-                    "invert": lambda t: Invert().visit(t), "kw": lambda t: Keywords(t).visit(t)}[mode](tree)
+                    "invert": lambda t: Invert().visit(t), "kw": lambda t: Keywords(t).visit(t),
+                    "mulswap": lambda t: MulSwap().visit(t), "argtemp": lambda t: ArgTemp().visit(t),
+                    "unelse": lambda t: UnElse().visit(t), "unpack": lambda t: Unpack().visit(t)}[mode](tree)
             out = ast.unparse(ast.fix_missing_locations(tree))
             compile(out, p, "exec")
             open(p, "w").write(out)
